@@ -693,6 +693,8 @@ type GatePresence struct {
 	Inner    centrifuge.PresenceManager
 	OnAdd    func(ch, clientID string)
 	OnRemove func(ch, clientID string)
+	// OnAdded is called after the inner AddPresence returned (the entry exists): a gate "presence landed".
+	OnAdded func(ch, clientID string)
 }
 
 func NewGatePresence(n *centrifuge.Node) (*GatePresence, error) {
@@ -713,7 +715,11 @@ func (g *GatePresence) AddPresence(ch string, clientID string, info *centrifuge.
 	if g.OnAdd != nil {
 		g.OnAdd(ch, clientID)
 	}
-	return g.Inner.AddPresence(ch, clientID, info)
+	err := g.Inner.AddPresence(ch, clientID, info)
+	if g.OnAdded != nil {
+		g.OnAdded(ch, clientID)
+	}
+	return err
 }
 func (g *GatePresence) RemovePresence(ch string, clientID string, userID string) error {
 	if g.OnRemove != nil {
